@@ -179,8 +179,9 @@ impl WorkerPool {
 
     /// Dispatch packet to a worker (round-robin)
     pub fn dispatch(&self, packet: Vec<u8>) -> DispatchResult {
-        // Check if pool is shutting down
+        // Check if pool is shutting down: the packet is refused, and counted like every other drop
         if self.shutdown_flag.load(Ordering::Relaxed) {
+            self.dropped_count.fetch_add(1, Ordering::Relaxed);
             return DispatchResult::Dropped;
         }
 
